@@ -325,10 +325,13 @@ def glom_exc_classes():
     return out
 
 
-def extract_copy_overrides(trees, P):
+def extract_copy_overrides(trees, P, classes=None):
+    """copy-protocol methods of glom's EXCEPTION classes (other classes — the M singleton — are not raised)"""
     out = []
     for m, tree in trees.items():
         for cls in [n for n in tree.body if isinstance(n, ast.ClassDef)]:
+            if classes is not None and cls.name not in classes:
+                continue
             for fn in cls.body:
                 if isinstance(fn, ast.FunctionDef) and fn.name in ('__copy__', '__reduce__', '__reduce_ex__',
                                                                    '__deepcopy__', '__getnewargs__'):
@@ -496,7 +499,7 @@ def extract(ctx):
     li = extract_list_iter(core, find_def, exc_names, P)
     entry_ok = extract_entry_points(core, find_def, P)
     classes = glom_exc_classes()
-    overrides = extract_copy_overrides(trees, P)
+    overrides = extract_copy_overrides(trees, P, classes)
     shapes = ctor_shapes(trees, classes, P)
     raises, unresolved = extract_raises(trees, classes, P)
     import builtins
